@@ -22,7 +22,7 @@ from lib import gz, gtext, glist, gbool, gopt, gpair
 
 THEOREMS = ['C16_shape_src', 'C16_extends_partial', 'C16_extends_refuted', 'C16_flat_fields', 'C16_flat_override', 'C16_registry_subclasses',
             'C16_subclasses_closure', 'C16_xml_poly_rt', 'C16_xml_marker_resolves', 'C16_xml_mono', 'C16_xml_marker_sound',
-            'C16_xsi_target_src', 'C16_xsi_target_spec',
+            'C16_xsi_target_src', 'C16_xsi_target_spec', 'C16_gpt_src', 'C16_gpt_model',
             'C16_hier_poly_rt', 'C16_hier_mono', 'C16_hier_marker_sound',
             'C16_xml_poly_rt_spyne', 'C16_hier_poly_rt_spyne']
 
